@@ -15,6 +15,8 @@ pub struct Run {
     pub viols: Vec<Viol>,
     pub steps: u64,
     pub first_viol_at: Option<usize>,
+    /// per-step behaviour digests (C19 differential between the two builds)
+    pub digests: Option<Vec<u64>>,
 }
 
 impl Run {
@@ -22,7 +24,7 @@ impl Run {
         let sc = Sc::new(cfg)?;
         let model = Model::new(props, &sc);
         let obs = Obs::take(&sc);
-        Ok(Run { sc, model, obs, trace: vec![], viols: vec![], steps: 0, first_viol_at: None })
+        Ok(Run { sc, model, obs, trace: vec![], viols: vec![], steps: 0, first_viol_at: None, digests: None })
     }
 
     pub fn step(&mut self, op: Op) -> TxResult {
@@ -30,6 +32,20 @@ impl Run {
         let res = self.sc.apply(&op);
         let post = Obs::take(&self.sc);
         let vs = self.model.step(&self.sc, &pre_w, &self.obs, &op, &res, &post);
+        if let Some(d) = self.digests.as_mut() {
+            let evs: Vec<String> = res
+                .events
+                .iter()
+                .map(|e| match e {
+                    Ev::TfCreate { denom, .. } => format!("tf:create:{denom}"),
+                    Ev::TfMint { denom, amount, to, .. } => format!("tf:mint:{denom}:{amount}:{to}"),
+                    Ev::TfBurn { denom, amount, from, .. } => format!("tf:burn:{denom}:{amount}:{from}"),
+                    other => format!("{other:?}"),
+                })
+                .collect();
+            let txt = format!("{}|{}|{:?}|{:?}|{:?}", op.kind(), res.ok, post, evs, res.attrs);
+            d.push(crate::prim::fnv64(txt.as_bytes()));
+        }
         self.obs = post;
         self.trace.push(op);
         self.steps += 1;
